@@ -251,6 +251,10 @@ func New(opts Options) (*World, error) {
 	return w, nil
 }
 
+// Bind makes this world the one the process-wide in-process transport serves
+// (several worlds may exist in one process; only one is served at a time).
+func (w *World) Bind() { w.Transport.SetHandler(w.Server.HandlerForVerif()) }
+
 // Close shuts the backend down.
 func (w *World) Close() {
 	_ = w.BE.Shutdown()
